@@ -49,7 +49,7 @@ def _mk_double_cls0():
             if not self.open or not self.inbox:
                 return None
             m = self.inbox.pop(0)
-            return None if m == ND else m
+            return None if m == ND else payload(m)
 
         def openCom(self):
             self.open = True
@@ -62,8 +62,26 @@ def _mk_double_cls0():
     return Double
 
 
+# Some message tokens of the model stand for FALSY payloads on the wire (a reading of 0, an empty string, ...): a message
+# is a message whatever its truth value; only None is "no data".  Each falsy payload is used for one token, so the
+# logs stay unambiguous.
+FALSY = [0, "", 0.0, [], b"", (), False, {}, 0j]
+PAYLOAD = {"m2": 0, "m4": "", "n2": 0.0, "n3": [], "p1": b""}
+_rest = [v for v in FALSY if not any(type(v) is type(w) and v == w for w in PAYLOAD.values())]
+for _i, _v in enumerate(_rest):
+    PAYLOAD["m%d" % (13 + 9 * _i)] = _v          # tokens of the random traces (m0 .. m999)
+_BACK = {(type(v).__name__, repr(v)): k for k, v in PAYLOAD.items()}
+
+
+def payload(tok):
+    v = PAYLOAD.get(tok, tok)
+    return type(v)(v) if isinstance(v, (list, dict)) else v
+
+
 def enc(m):
-    return m if isinstance(m, str) else "!" + repr(m)
+    if isinstance(m, str) and m != "":
+        return m
+    return _BACK.get((type(m).__name__, repr(m)), "!" + repr(m))
 
 
 class Hub:
